@@ -45,7 +45,12 @@ impl Calls {
     }
 }
 
-pub fn observe_hostile(case: &J) -> J {
+fn write_cur(path: &str, case: &J) {
+    // the orchestrator reads this when the process dies inside the case (abort / stack overflow)
+    let _ = std::fs::write(path, serde_json::to_string(case).unwrap());
+}
+
+pub fn observe_hostile(case: &J, diag: bool) -> J {
     let bytes = bytes_of(&case["bytes"]);
     let nfds = case["nfds"].as_u64().unwrap_or(0) as usize;
     let ctx_le = case["ctx_le"].as_bool().unwrap_or_else(|| bytes.first() != Some(&b'B'));
@@ -107,7 +112,7 @@ pub fn observe_hostile(case: &J) -> J {
         });
     }
     let mut o = json!({"ev":"Hostile","id":case["id"],"cls":case["cls"],"bytes":case["bytes"],"nfds":nfds,"ctx_le":ctx_le,
-           "calls":c.map,"panics":c.panics});
+           "diag":diag,"calls":c.map,"panics":c.panics});
     if !parsed.is_null() {
         o["parsed"] = parsed; // (TLC's JSON reader has no null)
     }
@@ -132,13 +137,15 @@ pub fn cmd_obs_hostile(args: &[String]) {
                 .open(&a1)
                 .expect("open out");
             let mut w = std::io::LineWriter::new(f);
+            let cur = format!("{}.cur", a1);
             for (i, line) in inp.lines().enumerate() {
                 let line = line.unwrap();
                 if i < start || line.trim().is_empty() {
                     continue;
                 }
                 let case: J = serde_json::from_str(&line).expect("case json");
-                let o = observe_hostile(&case);
+                write_cur(&cur, &case);
+                let o = observe_hostile(&case, true);
                 writeln!(w, "{}", serde_json::to_string(&o).unwrap()).unwrap();
             }
         })
@@ -224,15 +231,24 @@ fn built(r: &mut Rng) -> (Vec<u8>, usize) {
     (vec![], 0)
 }
 
-/// rand-hostile <n> <seed> <out>
+/// rand-hostile <n> <seed> <out> [start]  -- cases before `start` are generated but not run (restart)
 pub fn cmd_rand_hostile(args: &[String]) {
     let n: u64 = args[0].parse().unwrap();
     let seed: u64 = args[1].parse().unwrap();
     let out = args[2].clone();
+    let start: u64 = args.get(3).map(|s| s.parse().unwrap()).unwrap_or(0);
     let h = std::thread::Builder::new()
         .stack_size(8 << 20)
         .spawn(move || {
-            let mut w = std::io::LineWriter::new(std::fs::File::create(&out).unwrap());
+            let f = std::fs::OpenOptions::new()
+                .create(true)
+                .append(start > 0)
+                .write(true)
+                .truncate(start == 0)
+                .open(&out)
+                .expect("open out");
+            let mut w = std::io::LineWriter::new(f);
+            let cur = format!("{}.cur", out);
             let mut r = Rng(seed.wrapping_mul(0x2545F491).wrapping_add(5));
             for i in 0..n {
                 let (cls, bytes, nfds) = match r.below(10) {
@@ -280,7 +296,11 @@ pub fn cmd_rand_hostile(args: &[String]) {
                     }
                 };
                 let case = json!({"id":i,"cls":cls,"bytes":jbytes(&bytes),"nfds":nfds});
-                let o = observe_hostile(&case);
+                if i < start {
+                    continue;
+                }
+                write_cur(&cur, &case);
+                let o = observe_hostile(&case, false);
                 writeln!(w, "{}", serde_json::to_string(&o).unwrap()).unwrap();
             }
         })
